@@ -945,7 +945,7 @@ Qed.
    (e.g. null) under generateSelector: SetLabels fails silently, the selector
    is checked against the labels that were meant to be written. *)
 Definition cx_cfg : ccfg :=
-  mkCfg "cc" "v1" "P" "ps" true true true sel_everything [] true false [] false false.
+  mkCfg "cc" "v1" "P" "ps" true true true sel_everything [] true false [] false false [["spec"]] [].
 Definition cx_parent : json := JObj [("metadata", JObj [("uid", JStr "p")])].
 Definition cx_sel : selector := SelReqs [mkReq "controller-uid" OpIn ["p"]].
 Definition cx_child : json := JObj [("metadata", JNull)].
